@@ -199,12 +199,12 @@ int main(int argc, char **argv) {
     static const char *DSETS[] = {",", ",;", ",; ", ";"};
     for (int d = 0; d < 4; d++) { CUR_DELIMS = DSETS[d]; n = enumerate("a,; b", L > 6 ? 6 : L, tok_adapter, base, DSETS[d]); base += 100000000; }
     /* replace: all (src, token, word) triples over {a,b,:} up to lengths (ls, 3 or 2, 3 or 2) */
-    { int ls = L >= 7 ? 5 : 4, lt = L >= 7 ? 3 : 2; const char *A = "ab:"; char src[8], tok[8], word[8]; long idx = 0;
+    { int ls = L >= 7 ? 5 : 4, lt = L >= 7 ? 3 : 2, lw = 3; const char *A = "ab:"; char src[8], tok[8], word[8]; long idx = 0;   /* words up to 3: a word longer than a 2-byte token exercises the size bound of string mode */
       for (int l1 = 0; l1 <= ls; l1++) { long t1 = 1; for (int i = 0; i < l1; i++) t1 *= 3;
         for (long v1 = 0; v1 < t1; v1++) { long t = v1; for (int i = l1 - 1; i >= 0; i--) { src[i] = A[t % 3]; t /= 3; } src[l1] = 0;
           for (int l2 = 1; l2 <= lt; l2++) { long t2 = 1; for (int i = 0; i < l2; i++) t2 *= 3;
             for (long v2 = 0; v2 < t2; v2++) { t = v2; for (int i = l2 - 1; i >= 0; i--) { tok[i] = A[t % 3]; t /= 3; } tok[l2] = 0;
-              for (int l3 = 0; l3 <= lt; l3++) { long t3 = 1; for (int i = 0; i < l3; i++) t3 *= 3;
+              for (int l3 = 0; l3 <= lw; l3++) { long t3 = 1; for (int i = 0; i < l3; i++) t3 *= 3;
                 for (long v3 = 0; v3 < t3; v3++, idx++) { if (!vf_mine(base + idx)) continue; t = v3; for (int i = l3 - 1; i >= 0; i--) { word[i] = A[t % 3]; t /= 3; } word[l3] = 0;
                   vf_cur_case = base + idx; vf_cur_op = 0; t_replace(src, tok, word);
                   vf_distinct("distinct", vf_hash(word, (size_t)l3, vf_hash(tok, (size_t)l2, vf_hash(src, (size_t)l1, VF_H0 + 99)))); } } } } } }
